@@ -518,7 +518,12 @@ def gen_peer(rng, transport):
         unit = rng.choice(['é€x', '<v>0123456789</v>', '\U0001F600', 'q'])
         msgs.insert(rng.randrange(len(msgs) + 1), '<data>%s</data>' % (unit * (rng.randint(40000, 400000) // len(unit.encode()))))
         delay = rng.choice([0, 20, 50])
-    return dict(kind='peer', transport=transport, base=base, msgs=msgs, reader_delay_ms=delay)
+    case = dict(kind='peer', transport=transport, base=base, msgs=msgs, reader_delay_ms=delay)
+    if transport == 'ssh' and rng.random() < 0.6:
+        # a peer that grants a small window and small packets: Channel.send accepts less than it is given, at offsets
+        # that are no multiple of any buffer size of the client
+        case['ssh_window'] = [rng.choice([4096, 5000, 9000, 20000]), rng.choice([4096, 4200, 6000])]
+    return case
 
 def oracle_peer(case, obs):
     out = []
@@ -576,7 +581,7 @@ def peers_level(ctx):
             case = gen_peer(rng, transport)
             obs, probs, _ = check_peer(ctx, case)
             n += 1
-            ctx.count({k: case[k] for k in ('kind', 'transport', 'base', 'msgs', 'reader_delay_ms')}, nontrivial=True)
+            ctx.count({k: case.get(k) for k in ('kind', 'transport', 'base', 'msgs', 'reader_delay_ms', 'ssh_window')}, nontrivial=True)
             ctx.hist('peer_transport', '%s/%s' % (transport, '1.1' if case['base'] else '1.0'))
             w = obs.get('writes', [])
             ctx.hist('peer_short_writes', 'none' if not any(x < l for _, l, x in w) else ('1-9' if sum(1 for _, l, x in w if x < l) < 10 else '10+'))
